@@ -1,2 +1,145 @@
-(* C33 — placeholder while the proofs are being written *)
-From AG Require Import DynCheck.
+(* C33 — dynamic schemas build exactly when the type system is valid.
+   Only property theorems here: each is closed by [exact], the main statements
+   are pinned by [Check] and the assumptions of every theorem are printed.
+
+   finish          : model of SchemaBuilder::finish (register, then SchemaInner::check in source order)
+   spec_named      : the type-validation rules the property text names
+   spec_extra      : the other specification rules check.rs enforces (unique names vs built-in
+                     scalars, objects have fields, no "__" names, OneOf input rules)
+   known_class_all : 0, or the number (1..10) of the first known deviation class the type system is in
+   NoDup names     : the invariant of the builder's IndexMap *)
+From AG Require Import DynCheck DynCheckProofs.
+Open Scope N_scope.
+
+(* builds exactly when valid, for every type system outside the ten classes *)
+Theorem C33_equiv : forall ts,
+  NoDup (map fst (ts_types ts)) -> known_class_all ts = 0 ->
+  okb (finish ts) = spec_valid ts.
+Proof. exact c33_equiv. Qed.
+
+Theorem C33_sound : forall ts,
+  NoDup (map fst (ts_types ts)) -> known_class_all ts = 0 ->
+  finish ts = Ok tt -> spec_named ts = true.
+Proof. exact c33_sound. Qed.
+
+Theorem C33_complete : forall ts,
+  NoDup (map fst (ts_types ts)) -> known_class_all ts = 0 ->
+  spec_named ts = true -> spec_extra ts = true -> finish ts = Ok tt.
+Proof. exact c33_complete. Qed.
+
+Theorem C33_reject_reason : forall ts c,
+  NoDup (map fst (ts_types ts)) -> known_class_all ts = 0 ->
+  finish ts = Err c -> spec_named ts = false \/ spec_extra ts = false.
+Proof. exact c33_reject_reason. Qed.
+
+(* the model neither panics nor runs out of fuel there *)
+Theorem C33_model_total : forall ts,
+  NoDup (map fst (ts_types ts)) -> known_class_all ts = 0 ->
+  finish ts = Ok tt \/ spec_valid ts = false.
+Proof. exact c33_model_total. Qed.
+
+(* check_input_object_reference (path DFS with the on-path set, fuel = number
+   of input objects + 1) decides "no chain of T! input fields leads back" *)
+Theorem C33_input_cycles : forall ts n fs o,
+  lookup ts n = Some (DInput fs o) ->
+  okb (ref_check ts (ref_fuel ts) n [] fs) = spec_acyclic ts n.
+Proof. exact ref_check_acyclic. Qed.
+
+(* no interface declarations and no subscription: unconditional *)
+Theorem C33_no_interfaces_exact : forall ts,
+  ts_subscription ts = None ->
+  (forall n d, In (n, d) (ts_types ts) ->
+     match d with
+     | DObject _ impls | DInterface _ impls => impls = []
+     | DSubscription _ => False
+     | _ => True end) ->
+  known_class_all ts = 0.
+Proof. exact c33_no_interfaces_exact. Qed.
+
+(* the verdict of the correspondence files can never be "theorem gap" *)
+Theorem C33_verdict_no_gap : forall ts i,
+  NoDup (map fst (ts_types ts)) -> check_case (ts, i) <> V_THEOREM_GAP.
+Proof. exact c33_verdict_no_gap. Qed.
+
+(* second half of the property, partial: what builds has every referenced
+   type name resolved (no model of introspection / export / execution; the
+   absence of panics there is exercised by the harness, not proved) *)
+Theorem C33_built_refs_resolve_partial : forall ts,
+  finish ts = Ok tt ->
+  lookup ts (ts_query ts) <> None /\
+  (forall m, ts_mutation ts = Some m -> lookup ts m <> None) /\
+  (forall n d r, In (n, d) (ts_types ts) -> In r (referenced_names d) -> lookup ts r <> None).
+Proof. exact c33_built_refs_resolve. Qed.
+
+(* known findings: the full statement is false of the faithful model *)
+Theorem C33_full_refuted :
+  (exists ts, nodup_names ts /\ finish ts = Ok tt /\ spec_named ts = false) /\
+  (exists ts c, nodup_names ts /\ finish ts = Err c /\ spec_valid ts = true).
+Proof. exact c33_full_refuted. Qed.
+
+(* the covariance test has the wrong direction for every type reference *)
+Theorem C33_is_subtype_direction_refuted : forall ts t,
+  is_subtype t (TNonNull t) = true /\
+  is_subtype (TNonNull t) t = false /\ spec_field_type_ok ts (TNonNull t) t = true.
+Proof. exact c33_direction. Qed.
+
+Theorem C33_covariance_direction_refuted :
+  accepts_invalid 1 w_cov_accept /\ rejects_valid 1 w_cov_reject 14.
+Proof. exact (conj w1a w1b). Qed.
+Theorem C33_covariance_named_refuted : rejects_valid 2 w_cov_named 14.
+Proof. exact w2. Qed.
+Theorem C33_argument_subtype_refuted : accepts_invalid 3 w_arg_subtype.
+Proof. exact w3. Qed.
+Theorem C33_extra_required_argument_refuted : accepts_invalid 4 w_extra_required.
+Proof. exact w4. Qed.
+Theorem C33_missing_nullable_argument_refuted : accepts_invalid 5 w_missing_nullable.
+Proof. exact w5. Qed.
+Theorem C33_fieldless_interface_refuted : accepts_invalid 6 w_fieldless /\ accepts_invalid 6 w_fieldless_self.
+Proof. exact (conj w6a w6b). Qed.
+Theorem C33_interface_implements_unregistered_refuted : accepts_invalid 7 w_unregistered.
+Proof. exact w7. Qed.
+Theorem C33_transitive_interface_refuted : accepts_invalid 8 w_transitive.
+Proof. exact w8. Qed.
+Theorem C33_subscription_root_refuted : accepts_invalid 9 w_sub_root.
+Proof. exact w9. Qed.
+Theorem C33_subscription_fields_refuted : accepts_invalid 10 w_sub_field /\ accepts_invalid 10 w_sub_arg.
+Proof. exact (conj w10a w10b). Qed.
+
+(* the hypotheses are satisfiable by non-trivial type systems *)
+Theorem C33_nonvacuous :
+  (nodup_names nv_valid /\ known_class_all nv_valid = 0 /\ finish nv_valid = Ok tt /\ spec_valid nv_valid = true) /\
+  (nodup_names nv_cycle /\ known_class_all nv_cycle = 0 /\ finish nv_cycle = Err 18 /\ spec_named nv_cycle = false).
+Proof. exact c33_nonvacuous. Qed.
+
+Check C33_equiv : forall ts,
+  NoDup (map fst (ts_types ts)) -> known_class_all ts = 0 -> okb (finish ts) = spec_valid ts.
+Check C33_sound : forall ts,
+  NoDup (map fst (ts_types ts)) -> known_class_all ts = 0 -> finish ts = Ok tt -> spec_named ts = true.
+Check C33_complete : forall ts,
+  NoDup (map fst (ts_types ts)) -> known_class_all ts = 0 ->
+  spec_named ts = true -> spec_extra ts = true -> finish ts = Ok tt.
+Check C33_input_cycles : forall ts n fs o,
+  lookup ts n = Some (DInput fs o) -> okb (ref_check ts (ref_fuel ts) n [] fs) = spec_acyclic ts n.
+
+Print Assumptions C33_equiv.
+Print Assumptions C33_sound.
+Print Assumptions C33_complete.
+Print Assumptions C33_reject_reason.
+Print Assumptions C33_model_total.
+Print Assumptions C33_input_cycles.
+Print Assumptions C33_no_interfaces_exact.
+Print Assumptions C33_verdict_no_gap.
+Print Assumptions C33_built_refs_resolve_partial.
+Print Assumptions C33_full_refuted.
+Print Assumptions C33_is_subtype_direction_refuted.
+Print Assumptions C33_covariance_direction_refuted.
+Print Assumptions C33_covariance_named_refuted.
+Print Assumptions C33_argument_subtype_refuted.
+Print Assumptions C33_extra_required_argument_refuted.
+Print Assumptions C33_missing_nullable_argument_refuted.
+Print Assumptions C33_fieldless_interface_refuted.
+Print Assumptions C33_interface_implements_unregistered_refuted.
+Print Assumptions C33_transitive_interface_refuted.
+Print Assumptions C33_subscription_root_refuted.
+Print Assumptions C33_subscription_fields_refuted.
+Print Assumptions C33_nonvacuous.
